@@ -621,7 +621,9 @@ pub fn invoke_on(ctx: &MCTPSMBusContext, c: &Call, buf: &mut [u8], set_eids: boo
     }
     let d = c.dest;
     let p = c.p;
-    trap(|| match c.form {
+    // `.map_err(|_| ())`: the harness only distinguishes "refused" from "encoded"; a library that
+    // gives its refusals a richer error type (benign/C16-o: `Result<usize, EncodeError>`) still builds
+    trap(|| (match c.form {
         Form::SetEid => {
             let op = match p[0] {
                 0 => MCTPSetEndpointIDOperations::SetEID,
@@ -727,6 +729,7 @@ pub fn invoke_on(ctx: &MCTPSMBusContext, c: &Call, buf: &mut [u8], set_eids: boo
             resp.generate_spdm_msg_packet_bytes(d, t, &c.hdr.as_deref(), &c.blob, buf)
         }
     })
+    .map_err(|_| ()))
 }
 
 /// What kind of message the API used promises (for C01's expected decode result).
